@@ -927,4 +927,462 @@ theorem foldl_placeRect_lists (rs : List (InRect ℝ)) (st : ModIn ℝ × Bool) 
     rw [ih'.1, ih'.2.1, ih'.2.2.1, ih'.2.2.2]
     cases hl : r.loc <;> simp_all [placeRect]
 
+
+/-! ## General slack: what `is_equation_met()` computes
+
+`Met c e t q` is `q.is_equation_met()` with the global slack `epsilon.evaluate() = e` and the constant
+`1e-6` of the code abstracted to `t`.  `Holds = Met · 0 0`.  Every clause is relaxed by `e + t`. -/
+
+/-- `is_equation_met()` returns `True` (both sides evaluate). -/
+def Met (c : Cfg) (e t : ℝ) (q : Eqn ℝ) : Prop := q.met realFns (env c) e t = some true
+
+theorem holds_iff_met (c : Cfg) (q : Eqn ℝ) : Holds c q ↔ Met c 0 0 q := Iff.rfl
+
+theorem met_ge (c : Cfg) (e t : ℝ) (g n : String) (l r : Expr ℝ) (x y : ℝ) (hl : l.eval realFns (env c) = some x)
+    (hr : r.eval realFns (env c) = some y) : Met c e t ⟨g, n, l, .ge, r, false⟩ ↔ y - e - t ≤ x := by
+  simp [Met, Eqn.met, hl, hr]
+theorem met_le (c : Cfg) (e t : ℝ) (g n : String) (l r : Expr ℝ) (x y : ℝ) (hl : l.eval realFns (env c) = some x)
+    (hr : r.eval realFns (env c) = some y) : Met c e t ⟨g, n, l, .le, r, false⟩ ↔ x ≤ y + e + t := by
+  simp [Met, Eqn.met, hl, hr]
+theorem met_eq (c : Cfg) (e t : ℝ) (g n : String) (l r : Expr ℝ) (x y : ℝ) (hl : l.eval realFns (env c) = some x)
+    (hr : r.eval realFns (env c) = some y) :
+    Met c e t ⟨g, n, l, .eq, r, false⟩ ↔ y - e - t ≤ x ∧ x ≤ y + e + t := by
+  simp [Met, Eqn.met, hl, hr]
+
+theorem metP_ge (c : Cfg) (e t : ℝ) (g n : String) (l r : Expr ℝ) (hl : isPoly l = true) (hr : isPoly r = true) :
+    Met c e t ⟨g, n, l, .ge, r, false⟩ ↔ evalP c r - e - t ≤ evalP c l :=
+  met_ge c e t g n l r _ _ (eval_poly c l hl) (eval_poly c r hr)
+theorem metP_le (c : Cfg) (e t : ℝ) (g n : String) (l r : Expr ℝ) (hl : isPoly l = true) (hr : isPoly r = true) :
+    Met c e t ⟨g, n, l, .le, r, false⟩ ↔ evalP c l ≤ evalP c r + e + t :=
+  met_le c e t g n l r _ _ (eval_poly c l hl) (eval_poly c r hr)
+theorem metP_eq (c : Cfg) (e t : ℝ) (g n : String) (l r : Expr ℝ) (hl : isPoly l = true) (hr : isPoly r = true) :
+    Met c e t ⟨g, n, l, .eq, r, false⟩ ↔ evalP c r - e - t ≤ evalP c l ∧ evalP c l ≤ evalP c r + e + t :=
+  met_eq c e t g n l r _ _ (eval_poly c l hl) (eval_poly c r hr)
+
+/-- more slack / a larger tolerance never turns a met equation into an unmet one (any equation, hard or not). -/
+theorem met_mono (c : Cfg) (e e' t t' : ℝ) (he : e ≤ e') (ht : t ≤ t') (h0 : 0 ≤ t) (q : Eqn ℝ)
+    (h : Met c e t q) : Met c e' t' q := by
+  unfold Met Eqn.met at h ⊢
+  cases hl : q.lhs.eval realFns (env c) with
+  | none => simp [hl] at h
+  | some x =>
+    cases hr : q.rhs.eval realFns (env c) with
+    | none => simp [hl, hr] at h
+    | some y =>
+      cases hc : q.cmp <;> cases hh : q.hard <;> simp [hl, hr, hc, hh] at h ⊢ <;>
+        first
+        | linarith
+        | exact ⟨by linarith [h.1], by linarith [h.2]⟩
+
+/-- in particular everything that holds exactly is reported as met by `is_equation_met()`. -/
+theorem met_of_holds (c : Cfg) (e t : ℝ) (he : 0 ≤ e) (ht : 0 ≤ t) (q : Eqn ℝ) (h : Holds c q) : Met c e t q :=
+  met_mono c 0 e 0 t he ht (le_refl _) q h
+
+/-! ### each kind of equation, with slack -/
+
+theorem rectEqs_met_iff (P : Params ℝ) (c : Cfg) (e t : ℝ) (m i : Nat) (hw : 0 < (c m i).w) (hh : 0 < (c m i).h) :
+    (∀ q ∈ rectEqs P m i, Met c e t q) ↔
+      (0 - e - t ≤ (c m i).x - 1 / 2 * (c m i).w ∧ 0 - e - t ≤ (c m i).y - 1 / 2 * (c m i).h ∧
+        (c m i).x + 1 / 2 * (c m i).w ≤ P.dw + e + t ∧ (c m i).y + 1 / 2 * (c m i).h ≤ P.dh + e + t) ∧
+      thinV P.r 1 * 10 - e - t ≤ thinV (c m i).w (c m i).h * 10 := by
+  unfold rectEqs
+  simp only [List.mem_cons, List.not_mem_nil, or_false, forall_eq_or_imp, forall_eq]
+  rw [met_ge c e t _ _ _ _ ((c m i).x - 1 / 2 * (c m i).w) 0
+        (by simp [eval_sub', eval_mul', Expr.eval, v, hlf, env]) (by simp),
+      met_ge c e t _ _ _ _ ((c m i).y - 1 / 2 * (c m i).h) 0
+        (by simp [eval_sub', eval_mul', Expr.eval, v, hlf, env]) (by simp),
+      met_le c e t _ _ _ _ ((c m i).x + 1 / 2 * (c m i).w) P.dw
+        (by simp [eval_add', eval_mul', Expr.eval, v, hlf, env]) (by simp),
+      met_le c e t _ _ _ _ ((c m i).y + 1 / 2 * (c m i).h) P.dh
+        (by simp [eval_add', eval_mul', Expr.eval, v, hlf, env]) (by simp),
+      met_ge c e t _ _ _ _ (thinV (c m i).w (c m i).h * 10) (thinV P.r 1 * 10)
+        (by rw [eval_mul']; exact eval_mul c _ _ _ _ (thinE_eval c m i hw hh) (by simp))
+        (by simp [Expr.mul'])]
+  tauto
+
+/-- the attachment equations, each relaxed by `e + t` (the equality on both sides). -/
+def AttachRawS (e t : ℝ) : Loc → Box ℝ → Box ℝ → Prop
+  | .north, tr, b => (tr.y + 1 / 2 * tr.h + 1 / 2 * b.h - e - t ≤ b.y ∧ b.y ≤ tr.y + 1 / 2 * tr.h + 1 / 2 * b.h + e + t) ∧
+      tr.x - 1 / 2 * tr.w + 1 / 2 * b.w - e - t ≤ b.x ∧ b.x ≤ tr.x + 1 / 2 * tr.w - 1 / 2 * b.w + e + t
+  | .south, tr, b => (tr.y - 1 / 2 * tr.h - 1 / 2 * b.h - e - t ≤ b.y ∧ b.y ≤ tr.y - 1 / 2 * tr.h - 1 / 2 * b.h + e + t) ∧
+      tr.x - 1 / 2 * tr.w + 1 / 2 * b.w - e - t ≤ b.x ∧ b.x ≤ tr.x + 1 / 2 * tr.w - 1 / 2 * b.w + e + t
+  | .east, tr, b => (tr.x + 1 / 2 * tr.w + 1 / 2 * b.w - e - t ≤ b.x ∧ b.x ≤ tr.x + 1 / 2 * tr.w + 1 / 2 * b.w + e + t) ∧
+      tr.y - 1 / 2 * tr.h + 1 / 2 * b.h - e - t ≤ b.y ∧ b.y ≤ tr.y + 1 / 2 * tr.h - 1 / 2 * b.h + e + t
+  | .west, tr, b => (tr.x - 1 / 2 * tr.w - 1 / 2 * b.w - e - t ≤ b.x ∧ b.x ≤ tr.x - 1 / 2 * tr.w - 1 / 2 * b.w + e + t) ∧
+      tr.y - 1 / 2 * tr.h + 1 / 2 * b.h - e - t ≤ b.y ∧ b.y ≤ tr.y + 1 / 2 * tr.h - 1 / 2 * b.h + e + t
+  | _, _, _ => True
+
+theorem attachEqs_met_iff (c : Cfg) (e t : ℝ) (side : Loc) (m i : Nat) :
+    (∀ q ∈ attachEqs side m i, Met c e t q) ↔ AttachRawS e t side (c m 0) (c m i) := by
+  cases side <;> unfold attachEqs AttachRawS <;>
+    simp only [List.mem_cons, List.not_mem_nil, or_false, forall_eq_or_imp, forall_eq, false_imp_iff]
+  all_goals
+    first
+    | (rw [metP_eq c e t _ _ _ _ rfl rfl, metP_ge c e t _ _ _ _ rfl rfl, metP_le c e t _ _ _ _ rfl rfl]
+       simp only [evalP, Expr.add', Expr.sub', Expr.mul', v, hlf, env, half_eq])
+    | simp
+
+theorem intraSide_met_iff (c : Cfg) (e t : ℝ) (m : Nat) (b : ModIn ℝ) (s : Loc) (k x : VK) (key : Box ℝ → ℝ) (nm : String) :
+    (∀ q ∈ intraSide m b s k x key nm, Met c e t q) ↔
+      ∀ p ∈ pairs (sortBy (fun p => key p.2) (b.side s)),
+        coord k (c m p.1.1) + 1 / 2 * coord x (c m p.1.1) ≤ coord k (c m p.2.1) - 1 / 2 * coord x (c m p.2.1) + e + t := by
+  unfold intraSide
+  simp only [List.mem_map, forall_exists_index, and_imp, Prod.forall]
+  constructor
+  · intro h a1 a2 b1 b2 hp
+    obtain ⟨i, hi⟩ := exists_idx_of_mem _ 0 _ hp
+    have := h _ i _ _ _ _ hi rfl
+    rw [metP_le c e t _ _ _ _ rfl rfl] at this
+    simpa only [evalP, Expr.add', Expr.sub', Expr.mul', v, hlf, env_coord, half_eq] using this
+  · intro h q i a1 a2 b1 b2 hi hq
+    subst hq
+    rw [metP_le c e t _ _ _ _ rfl rfl]
+    simp only [evalP, Expr.add', Expr.sub', Expr.mul', v, hlf, env_coord, half_eq]
+    exact h _ _ _ _ (mem_of_mem_idxFrom _ _ _ _ hi)
+
+theorem areaEq_met_iff (c : Cfg) (e t : ℝ) (m n : Nat) (a : ℝ) (nm : String) :
+    Met c e t ⟨"Area", nm, areaExpr m n, .ge, .cst a, false⟩ ↔ a - e - t ≤ areaSum c m n :=
+  met_ge c e t _ _ _ _ _ _ (areaExpr_eval c m n) (by simp)
+
+/-- shifting both arguments of the smooth maximum shifts its value. -/
+theorem smax_shift (x y tau d : ℝ) :
+    1 / 2 * ((x + d) + (y + d) + √(((x + d) - (y + d)) ^ 2 + 4 * tau * tau)) =
+      1 / 2 * (x + y + √((x - y) ^ 2 + 4 * tau * tau)) + d := by
+  rw [show (x + d) - (y + d) = x - y by ring]; ring
+
+
+/-! ### `Model.fix` and the no-overlap equation, with slack -/
+
+/-- `a` is within `e + t` of `T`. -/
+def Near (e t a T : ℝ) : Prop := T - e - t ≤ a ∧ a ≤ T + e + t
+
+theorem fixRect_met_iff (c : Cfg) (e t : ℝ) (m i : Nat) (xd yd wd hd : Option (Dict ℝ)) :
+    (∀ q ∈ fixRect m i xd yd wd hd, Met c e t q) ↔
+      (∀ u, xd.bind (dget i) = some u → Near e t (c m i).x (if i ≠ 0 then 0 + u + (c m 0).x else 0 + u)) ∧
+      (∀ u, yd.bind (dget i) = some u →
+        Near e t (c m i).y (if i ≠ 0 ∧ (xd.bind (dget i)).isSome then 0 + u + (c m 0).y else 0 + u)) ∧
+      (∀ u, wd.bind (dget i) = some u → Near e t (c m i).w (0 + u)) ∧
+      (∀ u, hd.bind (dget i) = some u → Near e t (c m i).h (0 + u)) := by
+  unfold fixRect
+  simp only [List.mem_append, or_imp, forall_and]
+  rw [and_assoc, and_assoc]
+  refine and_congr ?_ (and_congr ?_ (and_congr ?_ ?_))
+  · cases hx : xd.bind (dget i) with
+    | none => simp
+    | some t0 =>
+      by_cases hi : i = 0
+      · subst hi
+        simp only [Option.isSome_some, if_true, List.mem_cons, List.not_mem_nil, or_false, forall_eq, ne_eq,
+          not_true_eq_false, decide_false, Bool.false_and, Bool.false_eq_true, if_false, Option.some.injEq]
+        rw [metP_eq c e t _ _ _ _ rfl rfl]
+        simp [evalP, Expr.add', v, env, Near]
+      · simp only [Option.isSome_some, if_true, List.mem_cons, List.not_mem_nil, or_false, forall_eq, ne_eq, hi,
+          not_false_eq_true, decide_true, Bool.and_self, Option.some.injEq]
+        rw [metP_eq c e t _ _ _ _ rfl rfl]
+        simp [evalP, Expr.add', v, env, Near]
+  · cases hy : yd.bind (dget i) with
+    | none => simp
+    | some t0 =>
+      cases hx : xd.bind (dget i) with
+      | none =>
+        simp only [Option.isSome_some, Option.isSome_none, if_true, List.mem_cons, List.not_mem_nil, or_false,
+          forall_eq, Bool.and_false, Bool.false_eq_true, if_false, and_false, Option.some.injEq]
+        rw [metP_eq c e t _ _ _ _ rfl rfl]
+        simp [evalP, Expr.add', v, env, Near]
+      | some u =>
+        by_cases hi : i = 0
+        · subst hi
+          simp only [Option.isSome_some, if_true, List.mem_cons, List.not_mem_nil, or_false, forall_eq, ne_eq,
+            not_true_eq_false, decide_false, Bool.false_and, Bool.false_eq_true, if_false, false_and,
+            Option.some.injEq]
+          rw [metP_eq c e t _ _ _ _ rfl rfl]
+          simp [evalP, Expr.add', v, env, Near]
+        · simp only [Option.isSome_some, if_true, List.mem_cons, List.not_mem_nil, or_false, forall_eq, ne_eq, hi,
+            not_false_eq_true, decide_true, Bool.and_self, and_self, Option.some.injEq]
+          rw [metP_eq c e t _ _ _ _ rfl rfl]
+          simp [evalP, Expr.add', v, env, Near]
+  · cases hw : wd.bind (dget i) with
+    | none => simp
+    | some t0 =>
+      simp only [Option.isSome_some, if_true, List.mem_cons, List.not_mem_nil, or_false, forall_eq, Option.some.injEq]
+      rw [metP_eq c e t _ _ _ _ rfl rfl]
+      simp [evalP, Expr.add', v, env, Near]
+  · cases hh : hd.bind (dget i) with
+    | none => simp
+    | some t0 =>
+      simp only [Option.isSome_some, if_true, List.mem_cons, List.not_mem_nil, or_false, forall_eq, Option.some.injEq]
+      rw [metP_eq c e t _ _ _ _ rfl rfl]
+      simp [evalP, Expr.add', v, env, Near]
+
+
+
+/-- what `Model.fix` pins, each equation relaxed by `e + t`. -/
+def FixRawS (c : Cfg) (e t : ℝ) (m : Nat) (M : InModule ℝ) : Prop :=
+  M.hard = true →
+    ((M.fixed = true → Near e t (c m 0).x (split M.rects).trunk.x ∧ Near e t (c m 0).y (split M.rects).trunk.y) ∧
+      Near e t (c m 0).w (split M.rects).trunk.w ∧ Near e t (c m 0).h (split M.rects).trunk.h) ∧
+    (∀ i q, 1 ≤ i → (split M.rects).branches[i - 1]? = some q →
+      Near e t (c m i).x (q.x - (split M.rects).trunk.x + (c m 0).x) ∧
+      Near e t (c m i).y (q.y - (split M.rects).trunk.y + (c m 0).y) ∧ Near e t (c m i).w q.w ∧ Near e t (c m i).h q.h)
+
+theorem fixModule_met_iff (c : Cfg) (e t : ℝ) (m : Nat) (M : InModule ℝ) :
+    (∀ i < (split M.rects).c, ∀ q ∈ fixRect m i
+        (if M.hard then some (xDict (split M.rects) M.fixed) else none)
+        (if M.hard then some (yDict (split M.rects) M.fixed) else none)
+        (if M.hard then some (wDict (split M.rects) M.fixed) else none)
+        (if M.hard then some (hDict (split M.rects) M.fixed) else none), Met c e t q) ↔ FixRawS c e t m M := by
+  unfold FixRawS
+  by_cases hh : M.hard = true
+  · simp only [hh, if_true, forall_const, fixRect_met_iff, Option.bind_some, dget_xDict, dget_yDict, dget_wDict,
+      dget_hDict]
+    have h0 : 0 < (split M.rects).c := by unfold ModIn.c; omega
+    constructor
+    · intro h
+      refine ⟨?_, ?_⟩
+      · have := h 0 h0
+        simp only [if_true, ne_eq, not_true_eq_false, false_and, if_false, zero_add, Option.some.injEq,
+          forall_eq'] at this
+        obtain ⟨hx, hy, hw, hh'⟩ := this
+        refine ⟨fun hf => ⟨?_, ?_⟩, hw, hh'⟩
+        · exact hx _ (by simp [hf])
+        · exact hy _ (by simp [hf])
+      · intro i q hi hq
+        have hlt : i < (split M.rects).c := by
+          unfold ModIn.c
+          have : i - 1 < (split M.rects).branches.length := by
+            by_contra hc; rw [List.getElem?_eq_none (by omega)] at hq; cases hq
+          omega
+        have := h i hlt
+        have hi0 : i ≠ 0 := by omega
+        simp only [hi0, if_false, hq, Option.map_some, ne_eq, not_false_eq_true, if_true, Option.isSome_some,
+          and_self, zero_add, Option.some.injEq, forall_eq'] at this
+        exact this
+    · rintro ⟨⟨hfx, hw, hh'⟩, hbr⟩ i hi
+      by_cases hi0 : i = 0
+      · subst hi0
+        simp only [if_true, ne_eq, not_true_eq_false, false_and, if_false, zero_add, Option.some.injEq, forall_eq']
+        refine ⟨?_, ?_, hw, hh'⟩
+        · intro t ht
+          by_cases hf : M.fixed = true
+          · simp only [hf, if_true, Option.some.injEq] at ht; rw [← ht]; exact (hfx hf).1
+          · simp [hf] at ht
+        · intro t ht
+          by_cases hf : M.fixed = true
+          · simp only [hf, if_true, Option.some.injEq] at ht; rw [← ht]; exact (hfx hf).2
+          · simp [hf] at ht
+      · have hlt : i - 1 < (split M.rects).branches.length := by unfold ModIn.c at hi; omega
+        have hq := List.getElem?_eq_getElem hlt
+        have := hbr i _ (by omega) hq
+        simp only [hi0, if_false, hq, Option.map_some, ne_eq, not_false_eq_true, if_true, Option.isSome_some,
+          and_self, zero_add, Option.some.injEq, forall_eq']
+        exact this
+  · simp only [hh, Bool.false_eq_true, if_false, false_imp_iff, iff_true]
+    intro i hi q hq
+    simp [fixRect] at hq
+
+
+
+theorem interLhs_eval (c : Cfg) (tau : ℝ) (m i n j : Nat) :
+    (interEq tau m i n j).lhs.eval realFns (env c) =
+      some (1 / 2 * (tX (c m i) (c n j) + tY (c m i) (c n j) +
+        √((tX (c m i) (c n j) - tY (c m i) (c n j)) ^ 2 + 4 * tau * tau))) := by
+  unfold interEq
+  have e1 : (Expr.sub' (.pow (Expr.sub' (v .x m i) (v .x n j)) (.cst two))
+      (Expr.mul' (.cst quarter) (.pow (Expr.add' (v .w m i) (v .w n j)) (.cst two))) : Expr ℝ).eval realFns (env c)
+      = some (tX (c m i) (c n j)) := by
+    rw [eval_sub']
+    refine eval_sub c _ _ _ _ (eval_sq c _ _ (by simp [Expr.sub', v, Expr.eval, env])) ?_
+    rw [eval_mul']
+    refine eval_mul c _ _ _ _ (by simp) (eval_sq c _ _ (by simp [Expr.add', v, Expr.eval, env]))
+  have e2 : (Expr.sub' (.pow (Expr.sub' (v .y m i) (v .y n j)) (.cst two))
+      (Expr.mul' (.cst quarter) (.pow (Expr.add' (v .h m i) (v .h n j)) (.cst two))) : Expr ℝ).eval realFns (env c)
+      = some (tY (c m i) (c n j)) := by
+    rw [eval_sub']
+    refine eval_sub c _ _ _ _ (eval_sq c _ _ (by simp [Expr.sub', v, Expr.eval, env])) ?_
+    rw [eval_mul']
+    refine eval_mul c _ _ _ _ (by simp) (eval_sq c _ _ (by simp [Expr.add', v, Expr.eval, env]))
+  have hs : 0 ≤ (tX (c m i) (c n j) - tY (c m i) (c n j)) ^ 2 + 4 * tau * tau := by
+    nlinarith [sq_nonneg (tX (c m i) (c n j) - tY (c m i) (c n j)), sq_nonneg tau]
+  simp only
+  unfold smaxE
+  rw [eval_mul']
+  refine eval_mul c _ _ _ _ (by simp [hlf]) ?_
+  rw [eval_add']
+  refine eval_add c _ _ _ _ (by rw [eval_add']; exact eval_add c _ _ _ _ e1 e2) ?_
+  refine eval_sqrt c _ _ ?_ hs
+  rw [eval_add']
+  refine eval_add c _ _ _ _ (eval_sq c _ _ (by rw [eval_sub']; exact eval_sub c _ _ _ _ e1 e2)) ?_
+  simp [Expr.mul']
+
+/-- the no-overlap equation with slack: both compared quantities are shifted by `e + t`. -/
+def InterRawS (tau e t : ℝ) (p q : Box ℝ) : Prop :=
+  0 ≤ (tX p q + (e + t)) + (tY p q + (e + t)) ∨ (tX p q + (e + t)) * (tY p q + (e + t)) ≤ tau ^ 2
+
+theorem interEq_met_iff (c : Cfg) (tau e t : ℝ) (m i n j : Nat) :
+    Met c e t (interEq tau m i n j) ↔ InterRawS tau e t (c m i) (c n j) := by
+  unfold InterRawS
+  rw [← smax_nonneg_iff_real, smax_shift]
+  have h := interLhs_eval c tau m i n j
+  have : interEq tau m i n j = ⟨"Inter", (interEq tau m i n j).name, (interEq tau m i n j).lhs, .ge, .cst zero, false⟩ := rfl
+  rw [this, met_ge c e t _ _ _ _ _ 0 h (by simp)]
+  constructor <;> intro h' <;> linarith
+
+
+/-! ### the whole system with slack -/
+
+theorem intraEqs_met_iff (c : Cfg) (e t : ℝ) (m : Nat) (b : ModIn ℝ) :
+    (∀ q ∈ intraEqs m b, Met c e t q) ↔
+      (∀ p ∈ pairs (sortBy (fun p => p.2.x) (b.side .north)),
+        coord .x (c m p.1.1) + 1 / 2 * coord .w (c m p.1.1) ≤ coord .x (c m p.2.1) - 1 / 2 * coord .w (c m p.2.1) + e + t) ∧
+      (∀ p ∈ pairs (sortBy (fun p => p.2.x) (b.side .south)),
+        coord .x (c m p.1.1) + 1 / 2 * coord .w (c m p.1.1) ≤ coord .x (c m p.2.1) - 1 / 2 * coord .w (c m p.2.1) + e + t) ∧
+      (∀ p ∈ pairs (sortBy (fun p => p.2.y) (b.side .east)),
+        coord .y (c m p.1.1) + 1 / 2 * coord .h (c m p.1.1) ≤ coord .y (c m p.2.1) - 1 / 2 * coord .h (c m p.2.1) + e + t) ∧
+      (∀ p ∈ pairs (sortBy (fun p => p.2.y) (b.side .west)),
+        coord .y (c m p.1.1) + 1 / 2 * coord .h (c m p.1.1) ≤ coord .y (c m p.2.1) - 1 / 2 * coord .h (c m p.2.1) + e + t) := by
+  unfold intraEqs
+  simp only [List.mem_append, or_imp, forall_and, intraSide_met_iff, and_assoc]
+
+/-- Bounds + Shapes of a box with slack. -/
+def RectRawS (P : Params ℝ) (e t : ℝ) (q : Box ℝ) : Prop :=
+  (0 - e - t ≤ q.x - 1 / 2 * q.w ∧ 0 - e - t ≤ q.y - 1 / 2 * q.h ∧
+    q.x + 1 / 2 * q.w ≤ P.dw + e + t ∧ q.y + 1 / 2 * q.h ≤ P.dh + e + t) ∧
+  thinV P.r 1 * 10 - e - t ≤ thinV q.w q.h * 10
+
+def IntraRawS (c : Cfg) (e t : ℝ) (m : Nat) (b : ModIn ℝ) : Prop :=
+  (∀ p ∈ pairs (sortBy (fun p => p.2.x) (b.side .north)),
+    coord .x (c m p.1.1) + 1 / 2 * coord .w (c m p.1.1) ≤ coord .x (c m p.2.1) - 1 / 2 * coord .w (c m p.2.1) + e + t) ∧
+  (∀ p ∈ pairs (sortBy (fun p => p.2.x) (b.side .south)),
+    coord .x (c m p.1.1) + 1 / 2 * coord .w (c m p.1.1) ≤ coord .x (c m p.2.1) - 1 / 2 * coord .w (c m p.2.1) + e + t) ∧
+  (∀ p ∈ pairs (sortBy (fun p => p.2.y) (b.side .east)),
+    coord .y (c m p.1.1) + 1 / 2 * coord .h (c m p.1.1) ≤ coord .y (c m p.2.1) - 1 / 2 * coord .h (c m p.2.1) + e + t) ∧
+  (∀ p ∈ pairs (sortBy (fun p => p.2.y) (b.side .west)),
+    coord .y (c m p.1.1) + 1 / 2 * coord .h (c m p.1.1) ≤ coord .y (c m p.2.1) - 1 / 2 * coord .h (c m p.2.1) + e + t)
+
+theorem macroEqs_met_iff (P : Params ℝ) (c : Cfg) (e t : ℝ) (m : Nat) (b : ModIn ℝ)
+    (hpos : ∀ i < b.c, 0 < (c m i).w ∧ 0 < (c m i).h) :
+    (∀ q ∈ macroEqs P m b, Met c e t q) ↔
+      (∀ i < b.c, RectRawS P e t (c m i)) ∧ (∀ i s q, (i, s, q) ∈ b.sided → AttachRawS e t s (c m 0) (c m i)) ∧
+      IntraRawS c e t m b := by
+  unfold macroEqs moduleRectEqs IntraRawS
+  simp only [List.mem_append, or_imp, forall_and, intraEqs_met_iff, List.mem_flatMap, forall_exists_index, and_imp,
+    Prod.forall]
+  have h0 : 0 < b.c := by unfold ModIn.c; omega
+  constructor
+  · rintro ⟨⟨hr0, hbr⟩, hin⟩
+    refine ⟨?_, ?_, hin⟩
+    · intro i hi
+      by_cases hi0 : i = 0
+      · subst hi0; exact (rectEqs_met_iff P c e t m 0 (hpos 0 h0).1 (hpos 0 h0).2).mp hr0
+      · obtain ⟨s, q, hs⟩ := sided_surj b i (by omega) hi
+        exact (rectEqs_met_iff P c e t m i (hpos i hi).1 (hpos i hi).2).mp
+          (fun x hx => hbr.1 x i s q hs hx)
+    · intro i s q hs
+      exact (attachEqs_met_iff c e t s m i).mp (fun x hx => hbr.2 x i s q hs hx)
+  · rintro ⟨hrect, hatt, hin⟩
+    refine ⟨⟨(rectEqs_met_iff P c e t m 0 (hpos 0 h0).1 (hpos 0 h0).2).mpr (hrect 0 h0), ?_⟩, hin⟩
+    constructor
+    · intro x i s q hs hx
+      have hi := (sided_range b i s q hs).2.1
+      exact (rectEqs_met_iff P c e t m i (hpos i hi).1 (hpos i hi).2).mpr (hrect i hi) x hx
+    · intro x i s q hs hx
+      exact (attachEqs_met_iff c e t s m i).mpr (hatt i s q hs) x hx
+
+/-- the system read equation by equation, every equation relaxed by `e + t`. -/
+def RawLegalS (P : Params ℝ) (e t : ℝ) (mods : List (InModule ℝ)) (c : Cfg) : Prop :=
+  (∀ m M, mods[m]? = some M →
+      ((∀ i < (split M.rects).c, RectRawS P e t (c m i)) ∧
+        (∀ i s q, (i, s, q) ∈ (split M.rects).sided → AttachRawS e t s (c m 0) (c m i)) ∧
+        IntraRawS c e t m (split M.rects)) ∧
+      M.area - e - t ≤ areaSum c m (split M.rects).c ∧
+      FixRawS c e t m M) ∧
+  (∀ m n Mm Mn, m < n → mods[m]? = some Mm → mods[n]? = some Mn →
+      ∀ i < (split Mm.rects).c, ∀ j < (split Mn.rects).c, InterRawS (tauV P mods.length) e t (c m i) (c n j))
+
+theorem macroPart_met_iff (P : Params ℝ) (mods : List (InModule ℝ)) (c : Cfg) (e t : ℝ) :
+    (∀ q ∈ (idxFrom 0 (mods.map fun M => split M.rects)).flatMap (fun (m, b) => macroEqs P m b), Met c e t q) ↔
+      ∀ m M, mods[m]? = some M → ∀ q ∈ macroEqs P m (split M.rects), Met c e t q := by
+  simp only [List.mem_flatMap, Prod.exists, forall_exists_index, and_imp, mem_idxFrom_map]
+  constructor
+  · intro h m M hM q hq; exact h q m _ M hM rfl hq
+  · intro h q m b M hM hb hq; subst hb; exact h m M hM q hq
+
+theorem areaPart_met_iff (mods : List (InModule ℝ)) (c : Cfg) (e t : ℝ) (U : Utils ℝ)
+    (hml : U.ml = mods.map fun M => split M.rects) (hal : U.al = mods.map fun M => M.area) :
+    (∀ q ∈ areaEqs U, Met c e t q) ↔
+      ∀ m M, mods[m]? = some M → M.area - e - t ≤ areaSum c m (split M.rects).c := by
+  unfold areaEqs
+  simp only [hml, hal, List.zip_map', List.mem_map, Prod.exists, forall_exists_index, and_imp, mem_idxFrom_map]
+  constructor
+  · intro h m M hM
+    have := h _ m _ _ M hM rfl rfl
+    rwa [areaEq_met_iff] at this
+  · intro h q m b a M hM hba hq
+    cases hba; subst hq
+    rw [areaEq_met_iff]; exact h m M hM
+
+theorem interPart_met_iff (P : Params ℝ) (mods : List (InModule ℝ)) (c : Cfg) (e t : ℝ) (U : Utils ℝ)
+    (hml : U.ml = mods.map fun M => split M.rects) :
+    (∀ q ∈ interEqs P U, Met c e t q) ↔
+      ∀ m n Mm Mn, m < n → mods[m]? = some Mm → mods[n]? = some Mn →
+        ∀ i < (split Mm.rects).c, ∀ j < (split Mn.rects).c, InterRawS (tauV P mods.length) e t (c m i) (c n j) := by
+  unfold interEqs
+  simp only [hml, List.map_map, List.length_map, List.mem_flatMap, List.mem_filter, List.mem_map, List.mem_range,
+    Prod.exists, forall_exists_index, and_imp, mem_idxFrom_map, decide_eq_true_eq, Function.comp_apply]
+  constructor
+  · intro h m n Mm Mn hmn hMm hMn i hi j hj
+    have := h _ m _ Mm hMm rfl n _ Mn hMn rfl hmn i hi j hj rfl
+    rwa [interEq_met_iff] at this
+  · intro h q m cm Mm hMm hcm n cn Mn hMn hcn hmn i hi j hj hq
+    subst hcm hcn hq
+    rw [interEq_met_iff]; exact h m n Mm Mn hmn hMm hMn i hi j hj
+
+theorem fixPart_met_iff (mods : List (InModule ℝ)) (c : Cfg) (e t : ℝ) (U : Utils ℝ)
+    (hml : U.ml = mods.map fun M => split M.rects)
+    (hx : U.xl = tables xDict 0 mods) (hy : U.yl = tables yDict 0 mods)
+    (hw : U.wl = tables wDict 0 mods) (hh : U.hl = tables hDict 0 mods) :
+    (∀ q ∈ fixEqs U, Met c e t q) ↔ ∀ m M, mods[m]? = some M → FixRawS c e t m M := by
+  unfold fixEqs
+  simp only [hml, hx, hy, hw, hh, List.map_map, List.mem_flatMap, List.mem_range, Prod.exists, forall_exists_index,
+    and_imp, mem_idxFrom_map, Function.comp_apply, dget_tables, Nat.zero_le, if_true, Nat.sub_zero]
+  constructor
+  · intro h m M hM
+    rw [← fixModule_met_iff]
+    intro i hi q hq
+    refine h q m _ M hM rfl i hi ?_
+    simpa only [hM, Option.bind_some] using hq
+  · intro h q m cm M hM hcm i hi hq
+    subst hcm
+    have := (fixModule_met_iff c e t m M).mpr (h m M hM) i hi q
+    apply this
+    simpa only [hM, Option.bind_some] using hq
+
+/-- what `is_equation_met()` of every generated equation says, for any slack `e` and constant `t`. -/
+theorem gen_met_iff (P : Params ℝ) (mods : List (InModule ℝ)) (U : Utils ℝ) (es : List (Eqn ℝ)) (c : Cfg) (e t : ℝ)
+    (hU : netlistToUtils mods = .ok U) (hg : gen P U = .ok es) (hpos : Pos mods c) :
+    (∀ q ∈ es, Met c e t q) ↔ RawLegalS P e t mods c := by
+  unfold netlistToUtils at hU
+  split at hU
+  · cases hU
+  · injection hU with hU
+    unfold gen at hg
+    split at hg
+    · cases hg
+    · injection hg with hg
+      subst hg
+      have hml : U.ml = mods.map fun M => split M.rects := by rw [← hU]
+      have hal : U.al = mods.map fun M => M.area := by rw [← hU]
+      simp only [List.mem_append, or_imp, forall_and]
+      rw [interPart_met_iff P mods c e t U hml,
+        fixPart_met_iff mods c e t U hml (by rw [← hU]) (by rw [← hU]) (by rw [← hU]) (by rw [← hU]),
+        areaPart_met_iff mods c e t U hml hal, hml, macroPart_met_iff P mods c e t]
+      unfold RawLegalS
+      constructor
+      · rintro ⟨⟨⟨h1, h2⟩, h3⟩, h4⟩
+        refine ⟨fun m M hM => ⟨?_, h2 m M hM, h4 m M hM⟩, h3⟩
+        exact (macroEqs_met_iff P c e t m _ (hpos m M hM)).mp (h1 m M hM)
+      · rintro ⟨h1, h3⟩
+        refine ⟨⟨⟨fun m M hM => ?_, fun m M hM => (h1 m M hM).2.1⟩, h3⟩, fun m M hM => (h1 m M hM).2.2⟩
+        exact (macroEqs_met_iff P c e t m _ (hpos m M hM)).mpr (h1 m M hM).1
+
 end FV.Legal
